@@ -366,7 +366,7 @@ def emitNode (n : Node) (needsClose : Bool) (nextSib : Option Node) (g : G) (w :
     let (g, w, _) := twWriteIndent g w start
     let (g, w, r) := twWrite g w code
     -- what is registered is what was written: the statement without the white space around it
-    let g := g.add { o with lit := code, col := o.col + (utf16Len (o.lit.takeWhile isSpaceByte) : Nat) } r
+    let g := g.add { o with lit := code, col := o.col + (utf16Len (o.lit.take (o.lit.length - (trimLeftSpace o.lit).length)) : Nat) } r
     let (g, w, _) := twWrite g w endS
     if !hasBlock then pure (g, w) else
     let iw := { w with indent := w.indent + 1 }
